@@ -29,7 +29,9 @@ type Case struct {
 	// TablesFirst: the sender asks for TablesToSend before CommitsToSend (both orders are legal;
 	// the answers must not depend on it)
 	TablesFirst bool `json:"tables_first,omitempty"`
-	Depth  int     `json:"depth"`
+	// Twice: both accessors are called a second time and the second answers are the ones checked
+	Twice bool `json:"twice,omitempty"`
+	Depth int  `json:"depth"`
 }
 
 var sub = evid.Register("negotiate", run)
@@ -73,6 +75,7 @@ func genCase(t *rapid.T, maxNodes int) Case {
 	}
 	c.DoneAt = rapid.IntRange(-1, nr-1).Draw(t, "doneAt")
 	c.TablesFirst = rapid.Bool().Draw(t, "tablesFirst")
+	c.Twice = rapid.IntRange(0, 2).Draw(t, "twice") == 0
 	return c
 }
 
@@ -251,8 +254,27 @@ func run(c Case) (o evid.Outcome, err error) {
 			return o, fmt.Errorf("TablesToSend: %v", err)
 		}
 	}
-	commons := finder.CommonCommmits()
 	gets := db.Gets - getsBefore
+	if c.Twice {
+		// the accessors are asked a second time (a sender that logs what it is about to send, then
+		// sends): what they answer then has to meet the statement just the same
+		if c.TablesFirst {
+			tablesToSend, err = finder.TablesToSend()
+			if err == nil {
+				commits, err = finder.CommitsToSend()
+			}
+		} else {
+			commits, err = finder.CommitsToSend()
+			if err == nil {
+				tablesToSend, err = finder.TablesToSend()
+			}
+		}
+		if err != nil {
+			return o, fmt.Errorf("second call of CommitsToSend/TablesToSend: %v", err)
+		}
+		o.Class("accessors-called-twice")
+	}
+	commons := finder.CommonCommmits()
 
 	commonNodes := []int{}
 	for _, cm := range commons {
